@@ -222,7 +222,35 @@ package wkbcommon
 //@   ensures err == nil && (order == littleEndian || order == bigEndian) ==> bits(p[0]) == u64(order, buf, 0) && bits(p[1]) == u64(order, buf, 8)
 //@   ensures err != nil ==> len(buf) < 16
 
+// a point is written as its type word (with the EWKB flag and the SRID word when srid != 0) and then
+// one 16-byte chunk holding the two coordinate bit patterns in the encoder's order
 //@ func (*Encoder).writePoint(e, p, srid)
 //@   floats bits
 //@   requires e.w != nil && e.order != nil && len(e.buf) == 16
-//@   callpre Write: len(e.buf) == 16
+//@   callpre Write: len(arg0) == 4 || len(arg0) == 8 || len(arg0) == 16
+//@   callpre Write: len(arg0) == 4 ==> srid == 0 && (e.order == binary.LittleEndian ==> le32(arg0, 0) == int(pointType)) && (e.order == binary.BigEndian ==> be32(arg0, 0) == int(pointType))
+//@   callpre Write: len(arg0) == 8 ==> srid != 0 && (e.order == binary.LittleEndian ==> le32(arg0, 0) == int(pointType | ewkbType) && le32(arg0, 4) == int(uint32(srid))) && (e.order == binary.BigEndian ==> be32(arg0, 0) == int(pointType | ewkbType) && be32(arg0, 4) == int(uint32(srid)))
+//@   callpre Write: len(arg0) == 16 ==> (e.order == binary.LittleEndian ==> le64(arg0, 0) == bits(p[0]) && le64(arg0, 8) == bits(p[1])) && (e.order == binary.BigEndian ==> be64(arg0, 0) == bits(p[0]) && be64(arg0, 8) == bits(p[1]))
+
+// ---------------------------------------------------------------- C01: headers
+// the type prefix of every non-point kind: type word (| EWKB flag), [SRID word], count word
+//@ func (*Encoder).writeTypePrefix(e, t, l, srid)
+//@   requires e.w != nil && e.order != nil && len(e.buf) == 16
+//@   callpre Write: srid == 0 ==> len(arg0) == 8 && (e.order == binary.LittleEndian ==> le32(arg0, 0) == int(t) && le32(arg0, 4) == int(uint32(l))) && (e.order == binary.BigEndian ==> be32(arg0, 0) == int(t) && be32(arg0, 4) == int(uint32(l)))
+//@   callpre Write: srid != 0 ==> len(arg0) == 12 && (e.order == binary.LittleEndian ==> le32(arg0, 0) == int(t | ewkbType) && le32(arg0, 4) == int(uint32(srid)) && le32(arg0, 8) == int(uint32(l))) && (e.order == binary.BigEndian ==> be32(arg0, 0) == int(t | ewkbType) && be32(arg0, 4) == int(uint32(srid)) && be32(arg0, 8) == int(uint32(l)))
+
+// the byte decoder's header: order byte, type word = low 4 bits of the stored word, SRID word present
+// exactly when bit 29 (the EWKB flag) of the stored word is set, payload starts after them
+//@ func byteOrderType(buf) (order, typ, err)
+//@   pure
+//@   ensures err == nil ==> len(buf) >= 6 && (buf[0] == 0 || buf[0] == 1) && (buf[0] == 0 ==> order == bigEndian) && (buf[0] == 1 ==> order == littleEndian) && int(typ) == u32(order, buf, 1)
+//@ func unmarshalByteOrderType(buf) (order, typ, srid, rest, err)
+//@   pure
+//@   ensures err == nil ==> len(buf) >= 6 && (buf[0] == 0 || buf[0] == 1) && (buf[0] == 0 ==> order == bigEndian) && (buf[0] == 1 ==> order == littleEndian)
+//@   ensures err == nil ==> int(typ) == u32(order, buf, 1) % 16
+//@   ensures err == nil && (u32(order, buf, 1) / 536870912) % 2 == 0 ==> srid == 0 && rest.ref == buf.ref && rest.off == buf.off + 5 && len(rest) == len(buf) - 5
+//@   ensures err == nil && (u32(order, buf, 1) / 536870912) % 2 == 1 ==> len(buf) >= 10 && srid == u32(order, buf, 5) && rest.ref == buf.ref && rest.off == buf.off + 9 && len(rest) == len(buf) - 9
+
+// what the encoder stores decodes to what was encoded: for a type code t in 1..7, the stored word
+// t (plain) or t + 2^29 (EWKB) has low nibble t and flag bit 0 resp. 1
+//@ lemma header_word_roundtrip: forall t int :: 1 <= t && t <= 7 ==> t % 16 == t && (t / 536870912) % 2 == 0 && (t + 536870912) % 16 == t && ((t + 536870912) / 536870912) % 2 == 1
